@@ -1,0 +1,69 @@
+//! Verification hooks. Compiled only with `--cfg redproxy_verif`; never part of a normal build.
+//!
+//! `emit` appends one JSON object per line to the file named by `REDPROXY_VTRACE`. The sequence
+//! number is taken and the line is written under one mutex, so file order is emission order.
+//! Without that environment variable every hook is a no-op.
+use std::cell::Cell;
+use std::fs::File;
+use std::io::Write;
+use std::sync::Mutex;
+use std::time::{Duration, Instant};
+
+struct Sink {
+    file: Option<File>,
+    seq: u64,
+    start: Instant,
+    init: bool,
+}
+
+static SINK: Mutex<Option<Sink>> = Mutex::new(None);
+
+pub fn emit(ev: &str, fields: serde_json::Value) {
+    let mut guard = SINK.lock().unwrap_or_else(|e| e.into_inner());
+    let sink = guard.get_or_insert_with(|| Sink {
+        file: None,
+        seq: 0,
+        start: Instant::now(),
+        init: false,
+    });
+    if !sink.init {
+        sink.init = true;
+        if let Ok(path) = std::env::var("REDPROXY_VTRACE") {
+            sink.file = std::fs::OpenOptions::new()
+                .create(true)
+                .append(true)
+                .open(path)
+                .ok();
+        }
+    }
+    if sink.file.is_none() {
+        return;
+    }
+    sink.seq += 1;
+    let mut obj = serde_json::Map::new();
+    obj.insert("seq".into(), sink.seq.into());
+    obj.insert("t".into(), (sink.start.elapsed().as_millis() as u64).into());
+    obj.insert("ev".into(), ev.into());
+    if let serde_json::Value::Object(m) = fields {
+        for (k, v) in m {
+            obj.insert(k, v);
+        }
+    }
+    let mut line = serde_json::Value::Object(obj).to_string();
+    line.push('\n');
+    let _ = sink.file.as_mut().unwrap().write_all(line.as_bytes());
+}
+
+thread_local! {
+    static SKEW: Cell<Duration> = Cell::new(Duration::ZERO);
+}
+
+/// Virtual clock offset of the calling thread (zero unless a harness sets it). Lets a harness
+/// replay timer expiry of `Fragments` without sleeping.
+pub fn skew() -> Duration {
+    SKEW.with(|s| s.get())
+}
+
+pub fn set_skew(d: Duration) {
+    SKEW.with(|s| s.set(d))
+}
